@@ -2,11 +2,34 @@ import HailVerif.Model.Copy
 import HailVerif.Model.DriverUtil
 open HailVerif HailVerif.DriverUtil HailVerif.Copy
 
-def splitPath (s : String) : Path := (s.splitOn "/").filter (· ≠ "")
+def hexVal (c : Char) : Option Nat :=
+  if c.isDigit then some (c.toNat - 48) else if 'a' ≤ c ∧ c ≤ 'f' then some (c.toNat - 87) else none
 
-def loc (s : String) : Loc := { path := splitPath s, slash := s.endsWith "/" }
+/-- hex of UTF-8 bytes -/
+def unhex (s : String) : Option (List Char) :=
+  if s == "-" then some [] else
+  let rec go : List Char → Option (List UInt8)
+    | [] => some []
+    | [_] => none
+    | a :: b :: r =>
+      match hexVal a, hexVal b, go r with
+      | some x, some y, some t => some (UInt8.ofNat (16 * x + y) :: t)
+      | _, _, _ => none
+  match go s.toList with
+  | some bytes => (String.fromUTF8? (ByteArray.mk bytes.toArray)).map String.toList
+  | none => none
 
-def showPath (p : Path) : String := joinWith "/" p
+def hexDigit (n : Nat) : Char := if n < 10 then Char.ofNat (48 + n) else Char.ofNat (87 + n)
+
+def hex (s : String) : String :=
+  String.ofList (s.toUTF8.toList.map fun b => [hexDigit (b.toNat / 16), hexDigit (b.toNat % 16)]).flatten
+
+/-- a tree path given as hex of `a/b/c` -/
+def splitPath (s : String) : Path := ((unhex s).map comps).getD []
+
+def loc (s : String) : Loc := { raw := (unhex s).getD [] }
+
+def showPath (p : Path) : String := hex (joinWith "/" p)
 
 /-- `T path=id.size … D path …` up to the first `X` -/
 def parseTree (ws : List String) : Option (List (Path × Node) × List String) :=
